@@ -333,6 +333,28 @@ class CFG:
         return bb in dom and ba in dom[bb]
 
 
+def _writes_params(d):
+    """True when a function body assigns to / increments one of its parameters (then textual
+    substitution of arguments would not be faithful)."""
+    if d is None:
+        return False
+    k = d.get("k")
+    if k in ("BinaryOperator", "CompoundAssignOperator") and d.get("op") in (
+            "=", "+=", "-=", "*=", "/=", "%=", "<<=", ">>=", "&=", "|=", "^=") and d.get("c"):
+        x = d["c"][0]
+        while x is not None and x.get("k") in ("ParenExpr", "ImplicitCastExpr") and x.get("c"):
+            x = x["c"][0]
+        if x is not None and x.get("k") == "DeclRefExpr" and x.get("dk") == "param":
+            return True
+    if k == "UnaryOperator" and d.get("op") in ("++", "--") and d.get("c"):
+        x = d["c"][0]
+        while x is not None and x.get("k") in ("ParenExpr", "ImplicitCastExpr") and x.get("c"):
+            x = x["c"][0]
+        if x is not None and x.get("k") == "DeclRefExpr" and x.get("dk") == "param":
+            return True
+    return any(_writes_params(x) for x in d.get("c", []) if x is not None)
+
+
 class Function:
     def __init__(self, d, unit):
         self.name = d["name"]
@@ -345,6 +367,7 @@ class Function:
         self.type = d["type"]
         self.params = d["params"]
         self.unit = unit
+        self.raw = d
         self.body = Node(d["body"], None, self)
         self.nodes = {n.i: n for n in self.body.walk()}
         self.cfg = CFG(d["cfg"], self.nodes) if d.get("cfg") else None
@@ -412,6 +435,89 @@ class Program:
                 F = Function(f, main)
                 self.functions[key] = F
                 self.by_name.setdefault(F.name, []).append(F)
+
+    # -- helper expansion -------------------------------------------------------------------
+    def inlined(self, fn, depth=2, keep=()):
+        """A view of fn in which calls to static helpers of the same file are expanded in place
+        (parameters replaced by the argument expressions): what a maintainer extracts into a helper
+        stays visible to the rules that read the syntax tree. Single-`return expr` helpers become the
+        expression itself; other helpers become an `InlinedCall` node holding the substituted body.
+        Nodes of fn itself keep their ids (so fn.cfg still locates them); the view has no CFG."""
+        key = (fn.file, fn.name, depth, tuple(sorted(keep)))
+        cache = self.__dict__.setdefault("_inl", {})
+        if key in cache:
+            return cache[key]
+        counter = [10 ** 7]
+        body = self._inline_dict(fn, fn.raw["body"], depth, (fn.name,) + tuple(keep), counter, None, 0)
+        d2 = dict(fn.raw)
+        d2["body"] = body
+        d2["cfg"] = None
+        d2["ompcfgs"] = []
+        v = Function(d2, fn.unit)
+        v.cfg = None
+        v.origin = fn
+        cache[key] = v
+        return v
+
+    def _helper(self, caller, name, stack):
+        if name in stack:
+            return None
+        for g in self.by_name.get(name, []):
+            if g.file == caller.file and g.static and g.raw.get("body"):
+                return g
+        return None
+
+    def _inline_dict(self, caller, d, depth, stack, counter, subst, declofs):
+        """Deep copy of dict d; subst = {param decl id: arg dict} while inside an expanded helper."""
+        if d is None:
+            return None
+        if subst is not None and d.get("k") == "DeclRefExpr" and d.get("dk") == "param" and d.get("d") in subst:
+            return self._fresh(subst[d["d"]], counter)
+        if d.get("k") == "CallExpr" and d.get("callee") and depth > 0:
+            g = self._helper(caller, d["callee"], stack)
+            if g is not None and not _writes_params(g.raw["body"]):
+                args = [self._inline_dict(caller, a, depth, stack, counter, subst, declofs) for a in d.get("c", [])[1:]]
+                sub2 = {}
+                for p_, a in zip(g.params, args):
+                    if a is not None:
+                        sub2[p_["d"]] = a
+                ofs = counter[0]
+                counter[0] += 1
+                gb = self._inline_dict(caller, g.raw["body"], depth - 1, stack + (g.name,), counter, sub2, ofs * 1000)
+                kids = [x for x in gb.get("c", []) if x is not None]
+                if gb.get("k") == "CompoundStmt" and len(kids) == 1 and kids[0].get("k") == "ReturnStmt" and kids[0].get("c"):
+                    return {"k": "ParenExpr", "i": self._id(counter), "l": d.get("l", 0), "t": d.get("t"),
+                            "inl": g.name, "c": [kids[0]["c"][0]]}
+                return {"k": "InlinedCall", "i": self._id(counter), "l": d.get("l", 0), "t": d.get("t"),
+                        "n": g.name, "c": [gb]}
+        out = dict(d)
+        if subst is not None:
+            out["i"] = self._id(counter)
+            if out.get("dk") == "local" and out.get("d") is not None:
+                out["d"] = out["d"] + declofs
+            if out.get("k") == "DeclStmt" and out.get("decls"):
+                out["decls"] = [dict(x, d=x["d"] + declofs) if "d" in x else x for x in out["decls"]]
+        if "c" in d:
+            out["c"] = [self._inline_dict(caller, x, depth, stack, counter, subst, declofs) for x in d["c"]]
+            # a constant argument substituted under a cast/paren makes the cast constant too
+            if subst is not None and out.get("cv") is None and out.get("k") in (
+                    "ImplicitCastExpr", "ParenExpr", "CStyleCastExpr", "ConstantExpr") and out["c"] \
+                    and out["c"][0] is not None and out["c"][0].get("cv") is not None:
+                out["cv"] = out["c"][0]["cv"]
+        return out
+
+    def _id(self, counter):
+        counter[0] += 1
+        return counter[0]
+
+    def _fresh(self, d, counter):
+        if d is None:
+            return None
+        out = dict(d)
+        out["i"] = self._id(counter)
+        if "c" in d:
+            out["c"] = [self._fresh(x, counter) for x in d["c"]]
+        return out
 
     def rel(self, path):
         if path.startswith(self.repo + "/"):
